@@ -31,12 +31,12 @@ def concrete_track(enc, case, rnd, nsec=None):
     return t, cells
 
 
-def decode(bdir, lines):
+def decode(bdir, lines, trace_path=None):
     class R:
         pass
     try:
         p = subprocess.run([common.exe(bdir, "h_track")], input="\n".join(lines) + "\n", stdout=subprocess.PIPE, stderr=subprocess.PIPE,
-                           text=True, timeout=600, env=dict(os.environ, **common.SAN_ENV))
+                           text=True, timeout=600, env=dict(os.environ, **common.SAN_ENV, **({"BEEBTOOLS_VERIF_TRACE": trace_path} if trace_path else {})))
         outs = p.stdout.split("\n")
         return outs, p
     except subprocess.TimeoutExpired as ex:
@@ -60,4 +60,49 @@ def yields_of(out_line, nsec):
         crc = bytes.fromhex(crchex)
         good = 1 if mkflux.crc16(b"\xfb" + data + crc) == 0 or mkflux.crc16(b"\xfb" + data + crc, mkflux.crc16(b"\xA1\xA1\xA1")) == 0 else 0
         res.append([rec + 1, stamp_to_rec.get(data, 0), good])
+    return res
+
+
+def model_trace_validation(chk, trace_path, meta, scratch, per_enc=400):
+    """Hook events (decoder decisions) of the decode cases -> TraceTrackM: is the real decoder's decision sequence a behaviour
+    of Track.tla's LookId/LookData for the injected faults?  Reported as model drift only."""
+    import json
+    if not os.path.exists(trace_path):
+        return dict(status="no hook events (built without the verif-hook commit?)")
+    groups, cur = {}, None
+    for ln in open(trace_path):
+        try:
+            e = json.loads(ln)
+        except ValueError:
+            continue
+        if e.get("e") == "line":
+            cur = e["n"]
+            groups[cur] = []
+        elif cur is not None:
+            groups[cur].append(e)
+    res = {}
+    for enc in ("FM", "MFM"):
+        out = []
+        n = 0
+        for i, (kind, menc, c) in enumerate(meta):
+            if kind != "decode" or menc != enc or i not in groups:
+                continue
+            out.append(dict(e="case", faults=c["faults"], cut=c["cut"], partial=bool(c["partial"])))
+            out += [ev for ev in groups[i] if ev.get("enc") == enc]
+            out.append(dict(e="end"))
+            n += 1
+            if n >= per_enc:
+                break
+        tp = os.path.join(scratch, "mtrace-%s.ndjson" % enc)
+        with open(tp, "w") as f:
+            for ev in out:
+                f.write(json.dumps(ev) + "\n")
+        r = common.tlc("TraceTrackM", "TraceTrackM_%s.cfg" % enc, workers=1, env={"TRACE": tp}, timeout=900, want_cases=False, deque=True)
+        chk.add_tlc("TraceTrackM_%s" % enc, r)
+        accepted = r.violated == "NotAccepted"
+        res[enc] = dict(cases=n, events=len(out), accepted=accepted)
+        if accepted:
+            chk.traces += n
+        else:
+            chk.drift += 1
     return res
